@@ -72,6 +72,40 @@ func ruleC15_1(c *Ctx) {
 				}
 				nPanics++
 				fn := fname(f)
+				if mi, ki, isLH := lookupHelper(f); isLH && !allowed[fn] {
+					// the same guard inside an unexported lookup helper: the helper is called only from the two reviewed
+					// functions with (the links parameter, the name of the ranged step), and its panic is reached only
+					// from !ok / len < 1 of m[k]
+					okCallers := false
+					if node := c.CG.Nodes[f]; node != nil && len(node.In) > 0 {
+						okCallers = true
+						for _, e := range node.In {
+							cs := e.Site
+							if cs == nil || cs.Common().StaticCallee() != f || !allowed[fname(e.Caller.Func)] {
+								okCallers = false
+								break
+							}
+							if org(cs.Common().Args[mi]) != "p1" || org(cs.Common().Args[ki]) != "p0.Steps[*].SupplyChainItem.Name" {
+								okCallers = false
+							}
+						}
+					}
+					okGuard := okCallers && len(b.Preds) > 0
+					elem := fmt.Sprintf("p%d{p%d}", mi, ki)
+					for _, pb := range b.Preds {
+						ifi, isIf := pb.Instrs[len(pb.Instrs)-1].(*ssa.If)
+						if !isIf {
+							okGuard = false
+							continue
+						}
+						o := org(ifi.Cond)
+						if !(strings.HasPrefix(o, "ok("+elem+")") || strings.HasPrefix(o, "(builtin:len("+elem+")")) {
+							okGuard = false
+						}
+					}
+					c.check(okGuard, R, fn, "panic is the 'step has no links' guard", pn.Pos(), "lookup helper called only by the two reviewed functions with (links, step.Name); reached only from !ok / len < 1 of the element", "the explicit panic is reachable under other conditions than a step without links")
+					continue
+				}
 				if !allowed[fn] {
 					c.bad(R, fn, "explicit panic", pn.Pos(), "an explicit panic is reachable from the loading / validating / signing / verifying entry points")
 					continue
@@ -285,20 +319,32 @@ func ruleC15_2(c *Ctx) {
 		}
 		// ed25519 lengths
 		lenChecks := map[string][]int64{}
-		for _, b := range vm.Blocks {
-			for _, in := range b.Instrs {
-				bo, ok := in.(*ssa.BinOp)
-				if !ok || (bo.Op != token.NEQ && bo.Op != token.EQL) {
-					continue
-				}
-				k, isK := constInt(bo.Y)
-				if !isK {
-					continue
-				}
-				o := org(bo.X)
-				for _, part := range []string{"Public", "Private"} {
-					if o == "encoding/hex.DecodedLen(builtin:len(p0.KeyVal."+part+"))" {
-						lenChecks[part] = append(lenChecks[part], k)
+		// in the validator or in an unexported helper it hands the key to; a switch on the decoded length counts like
+		// the comparisons it is compiled to
+		for _, fr := range helperClosure(vm, 2) {
+			for _, b := range fr.Blocks {
+				for _, in := range b.Instrs {
+					bo, ok := in.(*ssa.BinOp)
+					if !ok || (bo.Op != token.NEQ && bo.Op != token.EQL) {
+						continue
+					}
+					k, isK := constInt(bo.Y)
+					if !isK {
+						continue
+					}
+					o := org(bo.X)
+					for _, part := range []string{"Public", "Private"} {
+						if o == "encoding/hex.DecodedLen(builtin:len(p0.KeyVal."+part+"))" || (fr != vm && len(fr.Params) == 1 && typeStr(fr.Params[0].Type()) == "in_toto.KeyVal" && o == "encoding/hex.DecodedLen(builtin:len(p0."+part+"))") {
+							dup := false
+							for _, have := range lenChecks[part] {
+								if have == k {
+									dup = true
+								}
+							}
+							if !dup {
+								lenChecks[part] = append(lenChecks[part], k)
+							}
+						}
 					}
 				}
 			}
@@ -491,6 +537,45 @@ func (c *Ctx) lenFactsExcludeD(f *ssa.Function, x ssa.Value, need int64, blk, su
 		}
 		if okAll {
 			return true
+		}
+	}
+	// (c) x (or the map whose keys fill x) is the result of an unexported helper of the module that returns it only
+	// with the short lengths excluded
+	{
+		cands := []ssa.Value{resolve(x, nil)}
+		if m, ok := cands[0].(*ssa.MakeSlice); ok {
+			if l, ok := m.Len.(*ssa.Call); ok && calleeName(l) == "builtin:len" {
+				cands = append(cands, resolve(l.Call.Args[0], nil))
+			}
+		}
+		for _, cand := range cands {
+			var pc *ssa.Call
+			ri := 0
+			switch y := cand.(type) {
+			case *ssa.Call:
+				pc = y
+			case *ssa.Extract:
+				pc, _ = y.Tuple.(*ssa.Call)
+				ri = y.Index
+			}
+			if pc == nil {
+				continue
+			}
+			g := pc.Common().StaticCallee()
+			if g == nil || g.Blocks == nil || g.Pkg == nil || !strings.HasPrefix(g.Pkg.Pkg.Path(), modPath) || g.Object() == nil || g.Object().Exported() || errIndex(g) >= 0 {
+				continue
+			}
+			rets := returnsOf(g)
+			okAll := len(rets) > 0
+			for _, r := range rets {
+				if ri >= len(r.Results) || !c.lenFactsExcludeD(g, r.Results[ri], need, r.Block(), nil, depth+1) {
+					okAll = false
+					break
+				}
+			}
+			if okAll {
+				return true
+			}
 		}
 	}
 	// (b) disjunction over predecessors
